@@ -206,6 +206,20 @@ fn verifier_sweep(cfg: &Cfg, rep: &mut Report) {
                     let mut q = p.clone();
                     q.push(rng.bytes());
                     check(rep, "proof-append", call(&q, &root, &leaves[i], i as u32), false);
+                    // an honest proof with one more node of a special value anywhere in it: all zero (what a
+                    // generator may emit as a placeholder), all ones, the leaf itself, the root
+                    for (name, node) in [("zero", [0u8; 32]), ("ones", [0xFFu8; 32]), ("leaf", leaves[i]), ("root", root)] {
+                        let mut at = vec![0usize, p.len()];
+                        if p.len() >= 2 {
+                            at.push(1 + rng.idx(p.len() - 1));
+                        }
+                        at.dedup();
+                        for pos in at {
+                            let mut q = p.clone();
+                            q.insert(pos, node);
+                            check(rep, &format!("proof-insert-{name}-node"), call(&q, &root, &leaves[i], i as u32), false);
+                        }
+                    }
                     if n > 1 {
                         let j = (i + 1 + rng.idx(n - 1)) % n;
                         check(rep, "other-leaf", call(p, &root, &leaves[j], i as u32), false);
@@ -514,7 +528,7 @@ fn distributor(cfg: &Cfg, rep: &mut Report, h: u64, variant: u32) {
 }
 
 pub fn run(cfg: &Cfg, rep: &mut Report) {
-    rep.rule = "(a) for both hashers and both forms (sorted-pair, positional with index), every tree size 1..=65 (thorough 400) with fresh random leaves (split over shards): every leaf (beyond 40 leaves: first, last and a sample) with its honest proof from an independent tree builder, and every single corruption: one bit in each proof element, adjacent swap, first/last dropped, last duplicated, element appended, other leaf, random leaf, leaf bit, random root, root bit, every other index < 2^len (sampled beyond 64), index = 2^len and u32::MAX; single-path positional proofs of depth 30, 31 and 32, sorted-pair combs of depth 31-40; (b) distributor histories on a wrapper (Keccak sorted, Keccak indexed, Sha256 indexed) and the airdrop example: valid claims (a sixth of the leaves allocate 0), repeats, proofs of other indices, wrong / zero / negative amount, wrong receiver / index, empty proof, root changes (claims proved against the previous root are retried), ledger jumps, under-funded airdrops (a valid proof whose payout fails). Sorted-pair trees are also built with two equal adjacent leaves and with odd nodes paired with themselves (a sibling equal to the running node). Distinct case = (hasher, form, tree-size class, leaf position, corruption kind, outcome).".into();
+    rep.rule = "(a) for both hashers and both forms (sorted-pair, positional with index), every tree size 1..=65 (thorough 400) with fresh random leaves (split over shards): every leaf (beyond 40 leaves: first, last and a sample) with its honest proof from an independent tree builder, and every single corruption: one bit in each proof element, adjacent swap, first/last dropped, last duplicated, element appended, a node of a special value (all zero, all ones, the leaf, the root) inserted at the front / inside / at the end, other leaf, random leaf, leaf bit, random root, root bit, every other index < 2^len (sampled beyond 64), index = 2^len and u32::MAX; single-path positional proofs of depth 30, 31 and 32, sorted-pair combs of depth 31-40; (b) distributor histories on a wrapper (Keccak sorted, Keccak indexed, Sha256 indexed) and the airdrop example: valid claims (a sixth of the leaves allocate 0), repeats, proofs of other indices, wrong / zero / negative amount, wrong receiver / index, empty proof, root changes (claims proved against the previous root are retried), ledger jumps, under-funded airdrops (a valid proof whose payout fails). Sorted-pair trees are also built with two equal adjacent leaves and with odd nodes paired with themselves (a sibling equal to the running node). Distinct case = (hasher, form, tree-size class, leaf position, corruption kind, outcome).".into();
     verifier_sweep(cfg, rep);
     deep_paths(cfg, rep);
     let nh = cfg.pick(30u64, 1500);
